@@ -88,7 +88,6 @@ _packets = factory.import_library()
 import lxml.etree as _ET  # noqa: E402
 from space_packet_parser.packets import CCSDSPacket  # noqa: E402
 from space_packet_parser.xtce.definitions import XtcePacketDefinition  # noqa: E402
-from space_packet_parser.exceptions import UnrecognizedPacketTypeError  # noqa: E402
 
 
 _NOTHING = object()
@@ -141,9 +140,11 @@ def alone(defn, pkt, k, opts):
     with warnings.catch_warnings(record=True) as rec:
         warnings.simplefilter("always")
         try:
-            items = [xf.canon_item(i) for i in defn.packet_generator(src, skip_header_bytes=k, **opts)]
+            raw_items = list(defn.packet_generator(src, skip_header_bytes=k, **opts))
         except Exception as e:      # noqa: BLE001
+            library_exception(e)
             return None, f"{type(e).__name__}: {e}"
+    items = [xf.canon_item(i) for i in raw_items]          # (harness code: outside the library try block)
     return (tuple(items), tuple((w_.category.__name__, str(w_.message)) for w_ in rec)), None
 
 
@@ -641,6 +642,7 @@ def run(ch, render=False):
                         if g["opts"].get("yield_unrecognized_packet_errors"):
                             hv = factory.header_tuple(p)
                             good = (len(mine) == 1 and mine[0][0] == "ERR" and mine[0][2] is not None and
+                                    mine[0][2][0] == "PKT" and
                                     [v[1][1] for v in mine[0][2][1][:7]] == [repr(x) for x in hv])
                             if not good:
                                 out.fail("unrecognized_not_reported",
